@@ -103,10 +103,33 @@ class CmsDriver:
                 self.feats.add("add_zero_amount")
             if not alt:
                 r = ctx.call(self.noexc, o.add, k, n)
-            elif self.cls == "cms":
-                r = ctx.call(self.noexc, o.add_alt, o.hashes(k), n)
             else:
-                r = ctx.call(self.noexc, o.add_alt, k, o.hashes(k), n)
+                hs = o.hashes(k)
+                if self.case.get("alt_mode") == "scratch":
+                    # the caller's reusable buffer: ONE list object, overwritten for every call
+                    if not hasattr(self, "scratch"):
+                        self.scratch = []
+                    self.scratch[:] = hs
+                    hs = self.scratch
+                    self.feats.add("alt_list_scratch")
+                if self.cls == "cms":
+                    r = ctx.call(self.noexc, o.add_alt, hs, n)
+                else:
+                    r = ctx.call(self.noexc, o.add_alt, k, hs, n)
+                if self.case.get("alt_mode") and self._o("bounds"):
+                    # the same list object then goes to a second live sketch of ANOTHER width, verified through the key-based API
+                    from probables import CountMinSketch
+                    if not hasattr(self, "shadow"):
+                        self.shadow = CountMinSketch(width=self.w + 1, depth=self.d, hash_function=self.hf)
+                        self.shadow_true = Counter()
+                    if sum(self.shadow_true.values()) + n < 2 ** 31 - 1:
+                        ctx.call(self.noexc, self.shadow.add_alt, hs, n)
+                        self.shadow_true[k] += n
+                        c2 = ctx.call(self.noexc, self.shadow.check, k)
+                        ctx.check(self._o("bounds"), c2 >= self.shadow_true[k],
+                                  lambda: f"second live sketch (width {self.w + 1}) fed the SAME hash list after add_alt({k!r},{n}) on the "
+                                          f"first: check({k!r}) -> {c2} < {self.shadow_true[k]}")
+                        self.feats.add("shared_hash_list_second_sketch")
             self.true[k] += n
             self.total += n
             self.ever.add(k)
@@ -331,6 +354,7 @@ def case_strategy(tier, classes=("cms",), allow_clear=False, max_ops=40, small=F
             ops.append(st.tuples(st.just("reload"), st.integers(0, 1)))
             ops.append(st.tuples(st.just("join"), st.lists(st.tuples(ki, st.integers(1, 5)), max_size=4)))
         c["ops"] = [list(o) for o in draw(st.lists(st.one_of(*ops), min_size=3, max_size=max_ops))]
+        c["alt_mode"] = draw(st.sampled_from(["", "", "scratch", "shared"]))
         return c
 
     return case()
